@@ -138,7 +138,9 @@ type Struct struct {
 	Fields  []*Field // in ascending id order
 	Unknown bool     // declares the unknown-fields holder
 	UnkIdx  int      // Go field index of the holder
-	HasInit bool     // has a default initialiser
+	// UnknownFirst: the holder is declared before the tagged fields (hand-written structs), not after them
+	UnknownFirst bool
+	HasInit      bool // has a default initialiser
 	// DeclReversed: the Go struct declares its fields in descending id order (the schema is unaffected)
 	DeclReversed bool
 	GoType       reflect.Type
